@@ -72,7 +72,7 @@ theorem pppoe_ofHeader_headerBytes (p : PPPoE) (h : p.Inv) (rest : Bytes) :
   | mk v ty c sid pl tags ts =>
     have h1 := h.version; have h2 := h.type; have h3 := h.code; have h4 := h.sessionId; have h5 := h.payloadLength
     simp only at h1 h2 h3 h4 h5
-    have e0 : (UInt8.ofNat (v + ty * 16)).toNat = v + ty * 16 := ofNat_toNat_lt _ (by omega)
+    have e0 : (UInt8.ofNat (ty + v * 16)).toNat = ty + v * 16 := ofNat_toNat_lt _ (by omega)
     have e1 : (UInt8.ofNat c).toNat = c := ofNat_toNat_lt _ h3
     simp only [PPPoE.ofHeader, PPPoE.headerBytes, List.cons_append, List.nil_append, byteAt_cons_zero, byteAt_cons_succ,
       List.drop_succ_cons, List.drop_zero, e0, e1, PPPoE.mk.injEq, and_true]
